@@ -16,7 +16,7 @@ local macro "glue_tac" k1:ident k2:ident : tactic =>
   `(tactic| (rw [$k1:ident n a c hn ha ha' hc hc', $k2:ident n a' c' hn hd hd' he he']
              simp only [Prod.mk.injEq, KXn, KXe, KXs, wr, wl, Glue, Nat.reduceDiv, Nat.reduceMod, Nat.reduceAdd,
                Nat.reduceSub]
-             constructor <;> intro h <;> omega))
+             constructor <;> intro h <;> first | exact False.elim h | omega))
 
 theorem glue_0_0 : Kp n 0 a c = Kp n 0 a' c' ↔ Glue n 0 0 a c a' c' := by glue_tac Kp_0 Kp_0
 theorem glue_0_1 : Kp n 0 a c = Kp n 1 a' c' ↔ Glue n 0 1 a c a' c' := by glue_tac Kp_0 Kp_1
